@@ -238,8 +238,57 @@ def rule_R13_4(ctx):
     return r
 
 
+def rule_R13_5(ctx):
+    import c20
+    prog = ctx.prog
+    r = RuleResult("R13.5", "an object pattern entry is looked up in the "
+                   "source object unless its *key* is `_`: the discard test "
+                   "of the property binder is on the looked-up key",
+                   "skipping the lookup for another reason (e.g. a `_` "
+                   "target) silently accepts a missing property")
+    n = 0
+    for f in prog.hand_fns():
+        if f.module != "eval::bind" or f.is_closure or f.from_expansion:
+            continue
+        gets = [c for c in f.calls() if "BTreeMap" in (c.res_full or "") and (c.res or "").split("::")[-1] == "get"]
+        errs = [1 for bb, i, pl, kd, ao, sp in f.aggregates(ERR, "PropNotFound")]
+        if not gets or not errs:
+            continue
+        n += 1
+        key = tuple(p for p in f.canon_op(gets[0].args[1]) if p not in ("&", "*"))
+        tests = []
+        for c in f.calls():
+            d = c.declared or ""
+            if d not in ("std::cmp::PartialEq::eq", "std::cmp::PartialEq::ne"):
+                continue
+            vals = []
+            other = None
+            for a in c.args:
+                cp = f.canon_op(a)
+                if cp[0][0] == "const" and cp[0][1] in ("'_'", '"_"'):
+                    vals.append("_")
+                else:
+                    other = tuple(p for p in cp if p not in ("&", "*"))
+            if vals:
+                tests.append((c, other))
+        r.inst("%s: looked-up key %s; discard tests on %s" % (f.path, key, [t[1] for t in tests]))
+        for c, other in tests:
+            if other == key:
+                r.ok()
+            else:
+                r.fail("%s | discard test not on the looked-up key" % f.path,
+                       "%s skips the property lookup when %s is `_`, which is "
+                       "not the key it looks up (%s): a missing property can "
+                       "go unreported" % (f.path, other, key), where=c.loc)
+        # every success exit is behind the lookup or behind the discard test
+        if not tests:
+            r.ok()
+    r.require_floor("object property binder (lookup + PropNotFound)", n, 1)
+    return r
+
+
 def run(ctx):
-    return [rule_R13_1(ctx), rule_R13_2(ctx), rule_R13_3(ctx), rule_R13_4(ctx)]
+    return [rule_R13_1(ctx), rule_R13_2(ctx), rule_R13_3(ctx), rule_R13_4(ctx), rule_R13_5(ctx)]
 
 
 META = {
